@@ -113,7 +113,15 @@ Theorem C08_checker_accepts_get_rules : forall s w, no_fault w ->
   chk_c08_call OGetRules (next_seq s) (rscript w) (result_of (snd (cstep s w OGetRules))) = true.
 Proof. exact chk_c08_accepts_get_rules. Qed.
 
+(* DeleteRules: the listing and then one delete per rule, numbered consecutively; where the request numbers do not wrap
+   (the checker counts q+1, q+2, ... in N, the client modulo 2^32) and no send fails *)
+Theorem C08_checker_accepts_delete_rules : forall s w, sfaults w = [] ->
+  next_seq s + 1 + N.of_nat (length (rscript w)) < 2^32 ->
+  chk_c08_call ODeleteRules (next_seq s) (rscript w) (result_of (snd (cstep s w ODeleteRules))) = true.
+Proof. exact chk_c08_accepts_delete_rules. Qed.
+
 Print Assumptions C08_reply_found.
+Print Assumptions C08_checker_accepts_delete_rules.
 Print Assumptions C08_checker_accepts_get_rules.
 Print Assumptions C08_checker_accepts_get_status.
 Print Assumptions C08_spec_reading_is_get_reply.
